@@ -19,6 +19,7 @@ mod driver;
 mod e2;
 mod e3;
 mod e4;
+mod e5;
 mod e6;
 mod handlers;
 mod model;
@@ -80,6 +81,7 @@ fn dispatch(cfg: RunCfg) -> RunResult {
                     "e2" => e2::run(cfg).await,
                     "e3" => e3::run(cfg).await,
                     "e4" => e4::run(cfg).await,
+                    "e5" => e5::run(cfg).await,
                     "e6" => e6::run(cfg).await,
                     other => RunResult::harness_error(&cfg, format!("unknown engine {}", other)),
                 }
